@@ -31,8 +31,10 @@ def gen_items(rng, ids, threshold, n_items, big):
     for _ in range(n_items):
         k = rng.random()
         if k < 0.3:
-            L = rng.choice([T - 1, T, T + 1, T + 2, 3, 8, 40, 200] +
-                           ([1500, 4000, 8000] if big else []))
+            L = rng.choice([T - 1, T, T + 1, T + 2, 3, 8, 40, 200,
+                            126, 127, 128, 129, 130] +
+                           ([1500, 4000, 8000, 16382, 16383, 16384, 16385]
+                            if big else []))
             items.append(plugin_item_for_len(ids, max(L, 6)))
         elif k < 0.5:
             n = rng.choice([0, 1, 5, T, 100] + ([3000] if big else []))
@@ -59,7 +61,10 @@ def gen_writes(rng, ids, threshold, n):
     for i in range(n):
         k = rng.random()
         if k < 0.5:
-            L = rng.choice([T - 1, T, T + 1, 0, 1, 30, 300, 2000])
+            L = rng.choice([T - 1, T, T + 1, 0, 1, 30, 300, 2000,
+                            # frame-length / data-length VarInt boundaries
+                            126, 127, 128, 129, 130, 16382, 16383, 16384,
+                            16385, 16386])
             head = len(wire.varint(ids['sb.play.plugin'])) + \
                 len(wire.string('c:d'))
             n_data = max(L - head, 0)
